@@ -370,6 +370,13 @@ class FilesystemLayout(_BaseLayout[_MaildirT]):
                 for sub_parts in self._list_folders(list(parts) + [elem]):
                     yield sub_parts
 
+    def rename_folder(self, source_name: str, dest_name: str,
+                      delimiter: str) -> None:
+        if dest_name.startswith(source_name + delimiter):
+            # A directory cannot be moved into itself.
+            raise NotSupportedError('Invalid mailbox name.')
+        super().rename_folder(source_name, dest_name, delimiter)
+
     def _rename_folder(self, source_parts: _Parts, dest_parts: _Parts) -> None:
         path = self._get_path(source_parts)
         dest_path = self._get_path(dest_parts)
